@@ -86,9 +86,11 @@ type callCase struct {
 	CID     string // "" = let NewFContext generate one
 	CIDCls  string
 	TOms    int64
-	TOCls   string
-	Req     headerSet
-	Rsp     headerSet
+	// TOSpecial != nil: SetTimeout(*TOSpecial) instead (non-positive values)
+	TOSpecial *time.Duration
+	TOCls     string
+	Req       headerSet
+	Rsp       headerSet
 	// BlockTarget > 0: pad the request header block to exactly this many bytes
 	BlockTarget int
 	// reuse sequences: the FContext shared by the steps, the 1-based step and
@@ -114,12 +116,25 @@ type callCase struct {
 	completed       bool
 }
 
+// placedTimeout is the timeout the caller placed on a fresh FContext.
+func (cs *callCase) placedTimeout() (time.Duration, bool) {
+	switch {
+	case cs.Step > 0:
+		return 0, false // reuse steps change the context outside the case
+	case cs.TOSpecial != nil:
+		return (*cs.TOSpecial / time.Millisecond) * time.Millisecond, true
+	case cs.TOms > 0:
+		return time.Duration(cs.TOms) * time.Millisecond, true
+	}
+	return 5 * time.Second, true
+}
+
 func (cs *callCase) oneway() bool { return cs.Method == "fire" }
 
 func (cs *callCase) witness(extra map[string]interface{}) map[string]interface{} {
 	w := map[string]interface{}{
 		"leg": cs.Leg, "case_index": cs.Index, "method": cs.Method, "outcome": cs.Outcome,
-		"correlation_id_given": qs(cs.CID), "timeout_ms_set": cs.TOms,
+		"correlation_id_given": qs(cs.CID), "timeout_ms_set": cs.TOms, "timeout_special_set": cs.TOSpecial,
 		"request_headers_set":        qpairs(cs.Req.Pairs),
 		"response_headers_handler":   qpairs(cs.Rsp.Pairs),
 		"caller_request_headers":     qmap(cs.callerReqBefore),
@@ -156,6 +171,10 @@ func genCase(run *ev.Run, leg string, legIdx, i int, maxLong int) *callCase {
 	}
 	cs.CID, cs.CIDCls = genCID(rng, cs.Token)
 	cs.TOms, cs.TOCls = genTimeoutMS(rng)
+	if (strings.HasPrefix(leg, "pipe/") || strings.HasPrefix(leg, "tcp/")) && rng.Intn(8) == 0 {
+		d, cls := genNoDeadline(rng)
+		cs.TOSpecial, cs.TOCls, cs.TOms = &d, cls, 0
+	}
 	cs.Req = genHeaders(rng, 12, nil, maxLong)
 	var names []string
 	for _, p := range cs.Req.Pairs {
@@ -449,6 +468,9 @@ func (lr *legRun) oneCallOn(cc *clientConn, cs *callCase) {
 		if cs.TOms > 0 {
 			ctx.SetTimeout(time.Duration(cs.TOms) * time.Millisecond)
 		}
+		if cs.TOSpecial != nil {
+			ctx.SetTimeout(*cs.TOSpecial)
+		}
 		for _, p := range cs.Req.Pairs {
 			ctx.AddRequestHeader(p.Name, p.Value)
 		}
@@ -471,6 +493,9 @@ func (lr *legRun) oneCallOn(cc *clientConn, cs *callCase) {
 	}
 	if !reused && cs.CID == "" && cs.callerCID == "" {
 		lr.violation("caller-cid-not-generated", "NewFContext(\"\") did not generate a correlation id", cs, nil)
+	}
+	if !reused && cs.TOSpecial != nil && cs.callerTimeout != (*cs.TOSpecial/time.Millisecond)*time.Millisecond {
+		lr.violation("caller-timeout-not-kept", "ctx.Timeout() is not the (whole-millisecond) value given to SetTimeout", cs, nil)
 	}
 	if !reused && cs.TOms > 0 && cs.callerTimeout != time.Duration(cs.TOms)*time.Millisecond {
 		lr.violation("caller-timeout-not-kept", "ctx.Timeout() differs from the value given to SetTimeout", cs, nil)
@@ -670,6 +695,9 @@ func (lr *legRun) verify(cs *callCase) {
 	// 2. timeout
 	if time.Duration(hTO) != cs.callerTimeout {
 		lr.violation("handler-timeout-differs", "handler-side ctx.Timeout() differs from the caller's", cs, nil)
+	} else if placed, ok := cs.placedTimeout(); ok && time.Duration(hTO) != placed {
+		lr.violation("handler-timeout-differs", "handler-side ctx.Timeout() is not the timeout the caller placed on the FContext with SetTimeout (whole milliseconds; 0 or negative = no deadline; 5 s when none was set)", cs,
+			map[string]interface{}{"placed_timeout_ns": int64(placed)})
 	}
 	// 3. fresh op id on the handler's context
 	hop, ok := hReq["_opid"]
